@@ -73,6 +73,20 @@ def _run_main(ctx):
         except Exception as e:  # noqa
             ctx.count("construct_rejected")
             continue
+        if i % 4 == 1:
+            # byte strings as metadata values (the dictionary form carries any plain value as it is)
+            try:
+                import nir as _n
+                cands = [n for n in graph.nodes.values() if not isinstance(n, _n.NIRGraph)] + [graph]
+                for t in rng.sample(cands, min(len(cands), 2)):
+                    t.metadata = dict(t.metadata or {})
+                    t.metadata["raw"] = rng.choice([b"abc", b"caf\xc3\xa9", b"\xff\xfe", b""])
+                    t.metadata.setdefault("deep", {})
+                    if isinstance(t.metadata["deep"], dict):
+                        t.metadata["deep"]["raw"] = b"nested bytes"
+                case["bytes_metadata"] = True; ctx.count("bytes_metadata")
+            except Exception:
+                pass
         inferred = False
         if i % 3 == 0 and rng.random() < 0.5:
             # the dictionary form of a graph as inference left it (annotations written by infer_types, in whatever
@@ -87,7 +101,7 @@ def _run_main(ctx):
         before = compare.snapshot(graph)
         try:
             d = graph.to_dict()
-            if not inferred:
+            if not inferred and not case.get("bytes_metadata"):
                 c1 = {"op": "to_dict", "graph": g}
                 cases.append(c1); obs.append({"d": canon(d)}); reqs.append(c1)
             ops = ["infer", "dict_rt"] if inferred else ["dict_rt"]
